@@ -268,4 +268,39 @@ def rule_same_data_set_only(ctx):
     protocol.history_table(ctx, "O5.5", 3 if ctx.thorough else 2)
 
 
-RULES = [rule_is_unique, rule_distinct_count, rule_only_accepted_rows, rule_reset_completeness, rule_same_data_set_only]
+def rule_reset_restores_fresh_state(ctx):
+    """O5.4 (semantic part): after any rows, reset() leaves a built-in check in exactly the state of a fresh reset."""
+    model = ctx.model
+    ctx.res.minimum("O5.4b", 1)
+    setups = {
+        IS_UNIQUE: {"_field_names_to_check": ["f0"], "_row_key_to_location_map": None},
+        DISTINCT: {"_field_name_to_count": "f0", "_expression": "count >= 1", "_distinct_value_to_count_map": None},
+    }
+
+    def snapshot(check, names):
+        return {name: (dict(value) if isinstance(value, dict) else value) for name, value in check.attrs.items() if name in names}
+
+    def cell(ch):
+        class_qualname = ch.choose("check", list(setups))
+        rows_before = ch.choose("rows before the reset", [1, 2])
+        interp = Interp(model, ch)
+        world = World(model, interp, ch)
+        check = Obj(model.cls(class_qualname), dict(setups[class_qualname], _description="check"), label="check")
+        state_names = {name for name, value in setups[class_qualname].items() if value is None}
+        interp.call_function(model.func(class_qualname + ".reset"), [check], {}, None)
+        fresh = snapshot(check, state_names)
+        location = world.location()
+        for index in range(rows_before):
+            try:
+                interp.call_function(model.func(class_qualname + ".check_row"),
+                                     [check, {"f0": Atom("v%d" % index, "v%d" % index)}, location], {}, None)
+            except AbsRaise:
+                pass
+        interp.call_function(model.func(class_qualname + ".reset"), [check], {}, None)
+        after = snapshot(check, state_names)
+        return ("%s after %d row(s)" % (class_qualname.rsplit(".", 1)[-1], rows_before), after, fresh)
+
+    decide(ctx, "O5.4b", "reset() restores the fresh state", IS_UNIQUE + ".reset", cell, min_cells=4)
+
+
+RULES = [rule_is_unique, rule_distinct_count, rule_reset_restores_fresh_state, rule_only_accepted_rows, rule_reset_completeness, rule_same_data_set_only]
